@@ -366,5 +366,13 @@ func VerifC06Error() {
 		want++
 	}
 	verifAssert(len(pe.ExpectedTokens) == want, "the expected list has no duplicates and nothing else")
+	// rendering the error must not change what it reports
+	before := make([]string, len(pe.ExpectedTokens))
+	copy(before, pe.ExpectedTokens)
+	_ = pe.Error()
+	verifAssert(len(pe.ExpectedTokens) == len(before), "rendering the error (Error()) does not change the expected set")
+	for i := 0; i < len(before) && i < len(pe.ExpectedTokens); i++ {
+		verifAssert(pe.ExpectedTokens[i] == before[i], "rendering the error (Error()) does not change the expected set")
+	}
 	verifCover("end")
 }
